@@ -7,6 +7,7 @@ mod histmc;
 mod schedmc;
 mod heapmc;
 mod modmc;
+mod itermc;
 mod workers;
 mod run;
 mod hostobj;
@@ -57,6 +58,7 @@ fn main() {
         "schedmc" => schedmc::run(&args),
         "heapmc" => heapmc::run(&args),
         "modmc" => modmc::run(&args),
+        "itermc" => itermc::run(&args),
         "progmc-core" => progmc::run_profile(
             &args,
             run::RunCfg::default(),
